@@ -5,7 +5,9 @@ themselves.  Everything that exists only at run time is a `Sym` carrying a term.
 """
 from __future__ import annotations
 
+import datetime as _dt
 import itertools
+import uuid as _uuid
 
 _ids = itertools.count(1)
 
@@ -416,12 +418,14 @@ def term_of(v):
         return v.term
     if isinstance(v, (int, str, bytes, float, bool)) or v is None or v is Ellipsis:
         return ("k", v)
+    if isinstance(v, (_dt.datetime, _dt.timedelta, _dt.timezone, _uuid.UUID)):
+        return ("k", v)
     if isinstance(v, tuple):
         return ("tup",) + tuple(term_of(x) for x in v)
     if isinstance(v, EnumMemberV):
         return ("enum", v.cls.ref, v.name)
     if isinstance(v, InstV):
-        return ("inst", v.cls.ref, tuple(sorted((k, term_of(x)) for k, x in v.attrs.items())))
+        return ("inst", getattr(v.cls, "ref", None) or v.cls.name, tuple(sorted((k, term_of(x)) for k, x in v.attrs.items())))
     if isinstance(v, (ClassV,)):
         return ("class", v.ref)
     if isinstance(v, LibClass):
